@@ -8,8 +8,10 @@ from harness.common import Blob
 NAMES = ["a", "b", "c", "d", "e", "x", "z", "a.b", "a b", "B", "Z", "_", "0", "10", "2",
          "é", "ß", "日本", "𝄞", "a%26b", "a&b=c", "a+b", "#h", "~", "aa", "ab", "a-", "a.",
          "f.bin", "F.BIN", "data", "data.0", "data0", "ÿ", "Ā", "\U0001F600", "�",
-         "cafe\u0301.txt", "caf\u00e9.txt", "A\u030a", "\u00c5"]
-DIRS = ["d", "d.d", "dir", "D", "a", "a.b", "sub", "ü", "0", "z z", "𝄞d", "u\u0308", "cover"]
+         "cafe\u0301.txt", "caf\u00e9.txt", "A\u030a", "\u00c5",
+         ".hidden", ".pad-notes.txt", "-dash", "info", "m", "new", "check", "@at", "a.torrent"]
+DIRS = ["d", "d.d", "dir", "D", "a", "a.b", "sub", "ü", "0", "z z", "𝄞d", "u\u0308", "cover",
+        ".padlock", ".git", "-x", "edit"]
 
 
 def size_classes(B, pl):
@@ -49,6 +51,11 @@ def pick_blob(rng, size):
     r = rng.random()
     if size and r < 0.12:
         return Blob.zero(size)
+    if size and r < 0.18 and size <= 300000:
+        return Blob.hexb(bytes([rng.randrange(1, 256)]) * size)          # one byte repeated
+    if size and r < 0.24 and size <= 300000:
+        block = Blob.rand(rng.randrange(1, 50), 16384).bytes()           # one block repeated
+        return Blob.hexb((block * (size // 16384 + 1))[:size])
     return Blob.rand(rng.randrange(1, 50), size)
 
 
@@ -110,6 +117,11 @@ def tree(rng, B, pl, max_files=6, allow_empty=True, big=True):
         classes[0] = "B+1"
     if rng.random() < 0.15 and len(files) >= 2:      # identical files (equal roots)
         files[1] = (files[1][0], files[0][1])
+        if rng.random() < 0.5:
+            import copy
+            twin = copy.copy(files[0][1])
+            twin.hardlink_of = files[0][0]           # ... as a second name of the same inode
+            files[1] = (files[1][0], twin)
     return files, classes
 
 
